@@ -95,17 +95,18 @@ def run(ctx: Context) -> None:
                 ctx.check('R09.6', False, f"{tab}: the table is re-indexed and carried over", ac, ac.node, construct=f"no update_connectivity call for {tab}_connectivity")
                 continue
             tests = [(norm_text(st.test), inb) for st, inb in enclosing_ifs(ac, c)]
+            from .common import facts as _facts
+            EDGE = f"'new_edge_index' in {ac.params[1]}.data_vars"
             if tab == 'face_node':
                 ctx.check('R09.6', not tests, "face_node: the required table is always carried over", ac, c, construct=f"face_node guard: {tests or 'none'}")
             else:
-                want_valid = f"topology.has_valid_{tab}_connectivity"
+                want_valid = f"self.topology.has_valid_{tab}_connectivity"
                 needs_edges = 'edge' in (a, b)
-                conj = set()
-                for t, inb in tests:
-                    if inb:
-                        conj |= {x.strip() for x in t.split(' and ')}
-                want = {want_valid} | ({'has_edges'} if needs_edges else set())
-                ctx.check('R09.6', conj == want, f"{tab}: carried over exactly when it is supplied and valid" + (" and the mask has an edge table" if needs_edges else ''), ac, c,
+                fs = _facts(ctx, ac, c)
+                conj = {t for t, pol in fs if pol} - {'has_edges'}
+                neg = {t for t, pol in fs if not pol}
+                want = {want_valid} | ({EDGE} if needs_edges else set())
+                ctx.check('R09.6', conj == want and not neg, f"{tab}: carried over exactly when it is supplied and valid" + (" and the mask has an edge table" if needs_edges else ''), ac, c,
                           construct=f"{tab} guard: {sorted(conj)}")
             # appended to the topology variables
             st = stmt_of(ac, c)
@@ -113,7 +114,7 @@ def run(ctx: Context) -> None:
                 and norm_text(st.value.func.value) == 'topology_variables' and st.value.args and st.value.args[0] is c
             ctx.check('R09.6', ok, f"{tab}: the re-indexed table joins the topology variables that are written", ac, c, construct=f"{tab}: topology_variables.append(update_connectivity(...))")
         he = [n for n in walk_no_nested(ac.node) if isinstance(n, ast.Assign) and norm_text(n.targets[0]) == 'has_edges']
-        ctx.check('R09.6', bool(he) and norm_text(he[0].value) == "'new_edge_index' in clip_mask.data_vars", "has_edges means the clip mask carries an edge table", ac, he[0] if he else ac.node)
+        ctx.check('R09.6', not he or norm_text(he[0].value) == EDGE, "a local that stands for 'the clip mask carries an edge table' means exactly that", ac, he[0] if he else ac.node)
         tv = [n for n in walk_no_nested(ac.node) if isinstance(n, (ast.Assign, ast.AnnAssign)) and norm_text(n.targets[0] if isinstance(n, ast.Assign) else n.target) == 'topology_variables']
         ok = bool(tv) and norm_text(tv[0].value) == '[topology.mesh_variable]'
         dsc = [c for c in calls_in(ac) if (callee(ctx, ac, c) or '').endswith('xarray.Dataset')]
